@@ -558,9 +558,30 @@ pub fn c07(rec: &mut Rec, rng: &mut Rng, thorough: bool) {
                     }
                     _ => {}
                 }
+                // several requests of the departing client in flight, so that its answers can come one at a time
+                if k % 8 == 4 {
+                    for _ in 0..2 {
+                        sim.plan_request(rng, i);
+                        sim.send_next(rec, rng, i);
+                        while !sim.plans[i].outq.is_empty() {
+                            sim.send_next(rec, rng, i);
+                        }
+                    }
+                    for _ in 0..4 {
+                        sim.poll(rec);
+                    }
+                }
                 sim.w.close(rec, i);
                 sim.poll(rec);
                 sim.poll(rec);
+                if k % 8 == 4 {
+                    // ONE late answer, a poll, and only then the newcomer: the connection must still be held for the rest
+                    if let Some(idx) = sim.w.held.iter().position(|h| h.tag.starts_with(&format!("/c{}/", i))) {
+                        sim.respond(rec, rng, idx);
+                    }
+                    sim.poll(rec);
+                    sim.poll(rec);
+                }
                 let j = sim.connect(rec);
                 sim.poll(rec);
                 sim.send_next(rec, rng, j);
